@@ -290,6 +290,8 @@ def check(seed, n, herad_path=None):
             rp, tree = real_parse(text)
             toks = real_tokens(text)
             item = dict(stage=stage, text=text, trees=trees, real_parse=rp)
+            if k % 211 == 0:
+                proto.sample("expr", {"stage": stage, "text": text, "parse": rp[:200]}, per_stream=4)
             requests.append("miniparse " + toks)
             meta.append((item, "parse"))
             if tree is not None:
